@@ -3,8 +3,8 @@
    extracted inductives.  No Extract Constant of ours. *)
 From Coq Require Extraction.
 From Coq Require Import ExtrOcamlBasic.
-From PM Require Import Model.EntryBase Model.EntryStr Model.EntryOps.
+From PM Require Import Model.EntryBase Model.EntryStr Model.EntryOps Model.EntryDocs.
 
-Definition entries : list (str * (pyval -> pyval)) := entries_str ++ entries_ops.
+Definition entries : list (str * (pyval -> pyval)) := entries_str ++ entries_ops ++ entries_images ++ entries_docs.
 
 Extraction "../runner/model.ml" entries.
